@@ -303,6 +303,14 @@ def c08_6(c: Ctx) -> None:
             c.fail(u, f'{name}: {why_}', f'calling {name} mutates a recorded handler result: the results of a completed event change afterwards', node=node_)
 
 
+@ob('C08.7', 'DOM', 're-dispatching a completed event to the same bus runs no handler again, whatever state its result ended in (completed or error): the already-handled filter and the '
+    'already-started guard (same obligation as C01.5); a re-run would change the results of a completed event')
+def c08_7(c: Ctx) -> None:
+    from .c01 import c01_5
+
+    c01_5(c)
+
+
 @ob('C08.4', 'WMW/DOM/SHAPE', 'an event is signalled complete only when all its results are terminal and all descendants are complete (same obligation as C03.1): an early signal is '
     'a completion that later changes')
 def c08_4(c: Ctx) -> None:
